@@ -213,12 +213,21 @@ class FunctionInfo:
 
 
 class Program:
-    def __init__(self, root=None):
+    def __init__(self, root=None, normalise=True):
         self.root = root or repo_root()
         self.modules = {}
         self.functions = {}
         self.classes = {}
+        self.inlined = []
+        self.const_subst = []
+        self.swapped = []
+        self.differing = []
+        self.dropped_helpers = []
         self._load()
+        if normalise and not os.environ.get("VERIF_NO_NORMALISE"):
+            from . import inline
+
+            inline.normalise(self)
 
     # ---- loading -------------------------------------------------------------------
     def _load(self):
@@ -569,6 +578,11 @@ def finish(rep, tier, t0, explanation, assumptions, prog, extra=None):
             ][:60],
             "notes": rep.notes,
             "source_root": prog.root if prog else None,
+            "normalisation": {"helpers_inlined": sorted({f"{a} <- {b}" for a, b in getattr(prog, "inlined", [])})[:40],
+                              "constants_propagated": sorted({b for a, b in getattr(prog, "const_subst", [])})[:40],
+                              "functions_canonically_equal_to_reference": sorted(getattr(prog, "swapped", []))[:60],
+                              "functions_differing_from_reference": sorted(getattr(prog, "differing", []))[:60],
+                              "dead_new_helpers_dropped": sorted(getattr(prog, "dropped_helpers", []))[:40]} if prog else {},
         },
         "assumptions": assumptions,
         "wall_s": round(time.time() - t0, 3),
